@@ -87,9 +87,6 @@ func observeRun(vm *ds.Context, input string, faces []int64, force bool, keepFac
 	}
 	o.Matched, o.Rest = vm.Matched, vm.RestInput
 	o.Ret = canon(project(vm.Ret, 0))
-	if strings.Contains(o.Ret, `"LB","SQ"`) { // a string that renders a dict: map order is unspecified
-		o.Ret = canonDetail("{'" + o.Ret)
-	}
 	o.Vars = varsOf(vm)
 	func() {
 		defer func() {
@@ -243,10 +240,7 @@ func init() {
 						m := strings.TrimRight(o1.Matched, "; \n\t")
 						if m == strings.TrimRight(text, "; \n\t") {
 							ev["consumedProgram"] = true
-							if run.Sig == "ok" && o1.Ret == "UNORDERED" {
-								// a string that renders a dict was replaced by the marker (map order): nothing to compare it with
-								ev["consumedProgram"] = false
-							} else if run.Sig == "ok" {
+							if run.Sig == "ok" {
 								var got J
 								_ = json.Unmarshal([]byte(o1.Ret), &got)
 								gotJ := reproject(got)
